@@ -235,6 +235,9 @@ def run(ctx):
     M = PoolModel(P, cg)
     _r13_opening_decodes_no_row(ctx, M, cg)
     _r14_no_weakening_pragma(ctx)
+    # "upgrades are additive": a uniqueness constraint added by a schema step makes the upgrade fail on databases that violate it and
+    # makes the unchanged INSERT OR REPLACE delete rows (C01's rule about the lease table's constraints)
+    ctx.include("C01", rules=("R7",))
     _r10_migrated_columns(ctx, M)
     _r11_commit_is_checked(ctx, M)
     _r12_explicit_transactions_closed(ctx, M)
